@@ -76,8 +76,8 @@ CLAIMED = {
     'C17': {
         'text': 'Deductive proof (Verus) on the verbatim bodies of count_terms, get_terms, filter, pass_filter, get_list_data, bip_count, bip_include, bip_exclude: count = length of the element sequence continuing through bound tails; '
                 'include/exclude = list_of(the subsequence, in order, of elements for which unify with the filter term succeeds / fails), unified with the output only (nothing else bound); get_terms (used by join) = resolved value or element sequence. '
-                'PARTIAL: functor and the string assembly of join are not yet under contract.',
-        'note': "Trusted: purity of unify (uninterpreted unify_ok tied to the result at call sites only), T1, T2, T4, T5. Termination of the tail walks not proved.",
+                'functor (next_solution_functor, atoms_match): exact outcome by pattern kind, prefix match when the pattern ends in *; arity = number of arguments. join (evaluate_join): the text is the Display of the collected terms joined by single spaces with , . ? ! attached to the previous word (Display itself uninterpreted).',
+        'note': "Trusted: purity of unify (uninterpreted unify_ok tied to the result at call sites only), Display as uninterpreted disp and the R10 wrappers of evaluate_join, str::starts_with as uninterpreted prefix test (R11), T1, T2, T3, T4, T5. Termination of the tail walks not proved.",
         'technique': 'contract-based deductive verification (Verus) of extracted real code',
         'design_ref': 'DESIGN.md 5/C17',
     },
